@@ -661,6 +661,12 @@ class PowerExpression(BinaryExpression):
         return self.make_ml_tag("msup", "{}{}".format(left_ml, right_ml), self.classes)
 
     def operate(self, one: NumberType, two: NumberType) -> NumberType:
+        if isinstance(one, int) and isinstance(two, int):
+            if two >= 0:
+                # exact integer power (numpy would wrap around at 64 bits)
+                return one**two
+            # numpy refuses integers to negative integer powers
+            one = float(one)
         return np.power(one, two)
 
     def __str__(self) -> str:
